@@ -155,13 +155,19 @@ package core
 //@   invariant d.Parent == nil && len(*root) == old(len(*root))
 
 //@ func (*JApiCore).processCurrentDirective(core)
-//@   property C01
+//@   property C01,C11
 //@   requires core != nil && imp(core.currentDirective != nil, directive.dirOK(core.currentDirective) && core.currentDirective.Parent == nil)
 //@   modifies treeMod(core)
 //@   ensures imp(result == nil, core.currentDirective == nil)
 //@   ensures imp(result != nil, core.currentDirective == old(core.currentDirective))
 //@   ensures imp(old(core.currentDirective) == nil, result == nil)
 //@   ghost core.gCtxAfterDirective := core.currentContextDirective
+// the pending directive is placed by the resolution of processContext, started from the context that is current when it
+// is processed - nothing moves the cursor first (C11-8 reset it for TYPE and ENUM, which closed an implicit MACRO)
+//@   ensures[C11,C10,@pending-directive-resolved-from-the-current-context] imp(old(core.currentDirective) != nil,
+//@       exists(w, skippedAll(old(core.currentContextDirective), w, old(core.currentDirective).type_)
+//@       && ctxStop(core, old(core.currentDirective), (*directive.Directive)(w), old(core.currentDirective).Parent,
+//@           result == nil && old(core.currentDirective).Parent == nil, result != nil)))
 
 // ---------------------------------------------------------------------------
 // Banned directives (C19). The set is written only by the option, before the build.
